@@ -79,9 +79,16 @@ theorem C06_value_decode (f : LenForm) (t : Nat) (c pre rest : Bytes) (v : Val)
       (readNode (pre ++ Spec.tlv f t c ++ rest) fuel (depth + 1) n).toOption.bind treeVal = some v := by
   have ht : t ≠ 255 := by
     intro h; subst h; simp [Spec.readVal] at hspec
-  rcases decodeAt_spec f t c pre rest hf ht with ⟨n, hdec, hentry, htag, hcont⟩
-  refine ⟨n, hdec, ?_⟩
   obtain ⟨r2, r4, r5, r6, r64, r65, r66, r67, r68, r69, r70, r128, r129, r130, _, _, _⟩ := C06_registry
+  have hctor : Gen.noDefaultCtor.contains (lookup t).name = false := by
+    apply ctor_of_not_pdu
+    unfold Spec.readVal at hspec
+    split at hspec <;> first
+      | (rw [r2]; decide) | (rw [r4]; decide) | (rw [r5]; decide) | (rw [r6]; decide) | (rw [r64]; decide)
+      | (rw [r65]; decide) | (rw [r66]; decide) | (rw [r67]; decide) | (rw [r68]; decide) | (rw [r69]; decide)
+      | (rw [r70]; decide) | (rw [r128]; decide) | (rw [r129]; decide) | (rw [r130]; decide) | (cases hspec)
+  rcases decodeAt_spec f t c pre rest hf ht hctor with ⟨n, hdec, hentry, htag, hcont⟩
+  refine ⟨n, hdec, ?_⟩
   have hk : ∀ e, lookup t = e → n.entry = e := fun e he => by rw [hentry, he]
   -- case analysis on the identifier octet, driven by the specification reader
   unfold Spec.readVal at hspec
@@ -262,7 +269,8 @@ example :
       .seq "Sequence" [.oid [1, 3, 6, 1, 2, 1, 1, 3, 0], .int "Counter64" 18446744073709551616],
       .seq "Sequence" [.oid [1, 3, 6, 1, 2, 1, 1, 4, 0], .marker "EndOfMibView"]]) := by
   refine ⟨?_, by decide, by decide, by rfl⟩
-  simp [Enc.WF, Enc.WFL, Enc.bytesL, Enc.bytes, Spec.tlv, specLength, LenForm.ok, toBE, lookup, Gen.registry, clsName, natureName]
+  simp [Enc.WF, Enc.WFL, Enc.bytesL, Enc.bytes, Spec.tlv, specLength, LenForm.ok, toBE, lookup, Gen.registry, clsName, natureName,
+    Gen.noDefaultCtor]
 
 /- non-vacuity: a whole v2c response message — wrapper, version, community, a GetResponse PDU in
    a non-minimal long form with request-id 2^31-1, and one binding carrying a Gauge32 above 2^31 -/
@@ -277,6 +285,6 @@ example :
         .seq "Sequence" [.seq "Sequence" [.oid [1, 3, 6, 1, 2, 1, 1, 7, 0], .int "Gauge" 4294967295]]]]) := by
   refine ⟨?_, by rfl⟩
   simp [Enc.WF, Enc.WFL, Enc.bytesL, Enc.bytes, Spec.tlv, specLength, LenForm.ok, toBE, lookup, Gen.registry, clsName,
-    natureName, pduShape, Enc.isIntPrim, Enc.isBindList, Enc.isPair]
+    natureName, pduShape, Enc.isIntPrim, Enc.isBindList, Enc.isPair, Gen.noDefaultCtor]
 
 end Snmp.Props.C06
